@@ -467,3 +467,91 @@ Section Grammar.
   | LS_error : malformed l -> LineSpec l IError
   | LS_send_now : ~ is_command l -> LineSpec l (ISend l 0 "" 0 0).
 End Grammar.
+
+(* ================================================================================================
+   PLAYING the parsed items (parse.go: Play).  Play walks the items in order:
+     Comment  - an echo comment is handed to the log channel, others do nothing;
+     Error    - ignored;   Wait d - sleeps d;   FilterAction - handed to the filter channel;
+     Send     - sleeps its Delay, then, if the condition is complete (pattern, count > 0, timeout
+                not 0), hands the condition to the condition checker and waits until the checker
+                says it is satisfied (by count or by timeout), then hands the message over.
+   Every delay is "an additional delay on top of any overhead already incurred in sending the
+   previous message" (README): it starts when the previous item is finished.
+
+   Times are nanoseconds (Z).  What can be observed from outside are stamps taken by the
+   consumers of Play's channels; the judgement is ONE-SIDED and needs no assumption about how
+   fast anything is: from the stamps that are certainly not later than the true instants the
+   checker derives, item by item, the earliest instant L at which the item can have finished, and
+   requires every stamp that is certainly not earlier than a true instant to respect it:
+     message hand-over :  ready = the consumer is about to receive (<= true hand-over),
+                          after = the consumer has received        (>= true hand-over)
+     condition         :  recv = the checker has received it       (>= Play reached the condition),
+                          sat  = the checker is about to say "satisfied" (<= Play continues)
+   ================================================================================================ *)
+Record pobs := mkobs {
+  o_sent : list (string * Z * Z);              (* message, ready, after *)
+  o_cond : list (string * Z * Z * Z * Z);      (* pattern, count, timeout, recv, sat *)
+  o_act : list faction;
+  o_echo : list string
+}.
+
+Definition complete_cond (p : string) (k T : Z) : bool :=
+  negb (p =? "") && (0 <? k)%Z && negb (T =? 0)%Z.
+
+Definition faction_same (a b : faction) : bool :=
+  match a, b with
+  | Accept p, Accept q | Deny p, Deny q | DelAccept p, DelAccept q | DelDeny p, DelDeny q => p =? q
+  | Reset, Reset | Unknown, Unknown => true
+  | _, _ => false
+  end.
+
+(* hand-over of message m no earlier than L: the new earliest finish, or None if the stamps say
+   the message went out too early / is not the stated one *)
+Definition take_sent (tol L : Z) (m : string) (o : pobs) : option (Z * pobs) :=
+  match o_sent o with
+  | (m', ready, after) :: ss =>
+      let L' := Z.max L ready in
+      if (m' =? m) && (L' - tol <=? after)%Z
+      then Some (L', mkobs ss (o_cond o) (o_act o) (o_echo o))
+      else None
+  | [] => None
+  end.
+
+Fixpoint play_check (tol L : Z) (its : list item) (o : pobs) : bool :=
+  match its with
+  | [] =>
+      match o_sent o, o_cond o, o_act o, o_echo o with
+      | [], [], [], [] => true
+      | _, _, _, _ => false
+      end
+  | IComment false _ :: r | IError :: r => play_check tol L r o
+  | IComment true m :: r =>
+      match o_echo o with
+      | x :: xs => (x =? m) && play_check tol L r (mkobs (o_sent o) (o_cond o) (o_act o) xs)
+      | [] => false
+      end
+  | IWait d :: r => play_check tol (L + d) r o
+  | IFilter a :: r =>
+      match o_act o with
+      | x :: xs => faction_same x a && play_check tol L r (mkobs (o_sent o) (o_cond o) xs (o_echo o))
+      | [] => false
+      end
+  | ISend m d p k T :: r =>
+      let L1 := (L + d)%Z in
+      if complete_cond p k T then
+        match o_cond o with
+        | (p', k', T', recv, sat) :: cs =>
+            if (p' =? p) && (k' =? k)%Z && (T' =? T)%Z && (L1 - tol <=? recv)%Z then
+              match take_sent tol (Z.max L1 sat) m (mkobs (o_sent o) cs (o_act o) (o_echo o)) with
+              | Some (L2, o2) => play_check tol L2 r o2
+              | None => false
+              end
+            else false
+        | [] => false
+        end
+      else
+        match take_sent tol L1 m o with
+        | Some (L2, o2) => play_check tol L2 r o2
+        | None => false
+        end
+  end.
